@@ -6,28 +6,6 @@ Encoder-side lemmas for pkg/format/rtph264 (C06, and the packet shapes C03 needs
 namespace Rtsp.Codec.H264
 open Rtsp.Rtp Rtsp.Codec.H26x Rtsp.Facts
 
-/-! ## validity predicates -/
-
-/-- `PayloadMaxSize ≥ 3` (2 divides by zero in `packetCount`, below that `avail` is negative) and
-at most 65535 (a UDP datagram cannot carry more; keeps the 16-bit STAP-A size prefix exact). -/
-def ValidCfg (c : EncCfg) : Prop := 3 ≤ c.max ∧ c.max ≤ 65535
-
-/-- a NALU the codec transports unchanged: non-empty, forbidden_zero_bit clear (the FU indicator
-does not carry it), type not one of the RTP aggregation / fragmentation types 24..29, and no
-`00 00 01` inside (`splitNALUs` / Annex-B detection would cut it). -/
-def ValidNalu (n : Bytes) : Prop :=
-  n ≠ [] ∧ n.headD 0 &&& 0x80 = 0 ∧
-  ¬ (24 ≤ (n.headD 0 &&& 0x1F).toNat ∧ (n.headD 0 &&& 0x1F).toNat ≤ 29) ∧
-  findSC n = none
-
-/-- an access unit: 1..MaxNALUsPerAccessUnit valid NALUs, at most MaxAccessUnitSize bytes -/
-def ValidFrame (au : List Bytes) : Prop :=
-  au ≠ [] ∧ au.length ≤ maxNALUs ∧ totalLen au ≤ maxAU ∧ ∀ n ∈ au, ValidNalu n
-
-instance (c : EncCfg) : Decidable (ValidCfg c) := by unfold ValidCfg; infer_instance
-instance (n : Bytes) : Decidable (ValidNalu n) := by unfold ValidNalu; infer_instance
-instance (au : List Bytes) : Decidable (ValidFrame au) := by unfold ValidFrame; infer_instance
-
 /-! ## items of one batch -/
 
 theorem fuHdr_length (h : UInt8) (a b : Bool) : (fuHdr h a b).length = 2 := rfl
